@@ -247,8 +247,7 @@ def run(ctx):
         back = [b for b in region if b in E.loop and E.mp_call[0] in ri.succs(b)] + ([E.mp_call[0]] if E.mp_call[0] in region else [])
         ctx.ob("R01.4", "stdin-closed-on-every-path", not back, ri.loc(takes[0][0]), "once the input is exhausted every path to the next poll closes stdin first")
         # the result of take is dropped, not kept
-        reads = local_reads(ri)
-        ctx.ob("R01.4", "taken-stdin-is-dropped", not reads.get(takes[0][1]["dest"]["l"]), ri.loc(takes[0][0]), "the File taken out of self.stdin must be dropped right away")
+        ctx.ob("R01.4", "taken-stdin-is-dropped", only_dropped(ri, takes[0][1]["dest"]["l"]), ri.loc(takes[0][0]), "the File taken out of self.stdin must be dropped right away")
 
     # ---- R01.9 one blocking I/O step per readiness report ------------------------------------------------------------------
     # poll() vouches for *one* read / one bounded write on a stream; a second read of the same stream without a new poll can block on an
